@@ -39,6 +39,7 @@ pub fn gen(group: &str, rng: &mut Rng, n: usize, out: &mut Vec<String>) {
         "sync" => synclane::gen(rng, n, out),
         "mt" => mt::gen(rng, n, out),
         "stall" => mt::gen_stall(rng, n, out),
+        "wstall" => mt::gen_wstall(rng, n, out),
         _ => panic!("unknown group {}", group),
     }
 }
@@ -58,6 +59,7 @@ pub fn run(lane: &str, args: &[&str]) -> (String, Option<String>) {
         "sync" => synclane::run(args),
         "mt" => mt::run(args),
         "stall" => mt::run_stall(args),
+        "wstall" => mt::run_wstall(args),
         "ctl" | "exop" | "cresp" => ctl::run(lane, args),
         "filter" | "esc" | "utf8" | "entry" | "result" | "helpers" | "url" => textl::run(lane, args),
         _ => ("UNKNOWN-LANE".into(), None),
